@@ -72,7 +72,7 @@ Proof. reflexivity. Qed.
 Lemma Constant_char w c : Constant_m w c = trunc w c.
 Proof. reflexivity. Qed.
 Lemma Sub_char w a b : 0 <= w -> Sub_m w a b = trunc w (a - b).
-Proof. intros. unfold Sub_m, Sub_propagate. cbv zeta. apply (trunc_idem w (a - b)); lia. Qed.
+Proof. intros. unfold Sub_m, Sub_propagate. cbv zeta. first [ apply (trunc_idem w (a - b)); lia | reflexivity ]. Qed.
 
 Lemma Bit_char w i a : 0 <= i -> Bit_m w i a = trunc w (bit a i).
 Proof. intros. rewrite <- bitZ_bit by lia. reflexivity. Qed.
@@ -81,25 +81,26 @@ Proof. intros. rewrite Bit_char by lia. apply fits_trunc; [lia|]. apply is_bit_f
 
 Lemma Mux2_char w sel s0 s1 : Mux2_m w sel s0 s1 = trunc w (if Z.odd sel then s1 else s0).
 Proof.
-  unfold Mux2_m, Mux2_propagate. cbv zeta. rewrite land_1_odd.
+  unfold Mux2_m, Mux2_propagate. cbv zeta. rewrite ?land_1_odd, ?Zmod_odd.
   destruct (Z.odd sel); reflexivity.
 Qed.
 
 Lemma Repeat_char w i : 0 <= w -> Repeat_m w i = if i =? 0 then 0 else 2 ^ w - 1.
 Proof.
-  intros. unfold Repeat_m, Repeat_propagate, py_truth. cbv zeta.
-  destruct (i =? 0); cbn [negb].
-  - change (Wire_put w 0) with (trunc w 0). apply trunc_small; [lia|]. pose proof (pow2_pos w); lia.
-  - change (Wire_put w (py_shl 1 w - 1)) with (trunc w (mask w)). rewrite <- mask_pow by lia.
+  intros. cbv beta iota zeta delta [Repeat_m Repeat_propagate py_truth].
+  destruct (i =? 0); cbv beta iota delta [negb]; change (Wire_put w ?v) with (trunc w v).
+  - apply trunc_small; [lia|]. pose proof (pow2_pos w); lia.
+  - change (py_shl 1 w - 1) with (mask w). rewrite <- mask_pow by lia.
     apply trunc_small; [lia|]. rewrite mask_pow by lia. pose proof (pow2_pos w); lia.
 Qed.
 
 Lemma Range_char wr hi lo a : 0 <= lo <= hi -> Range_m wr hi lo a = trunc wr (range_spec hi lo a).
 Proof.
   intros. unfold Range_m, Range_propagate, range_spec. cbv zeta.
-  change (Wire_put wr ?v) with (trunc wr v). f_equal.
-  change (py_shl 1 (hi - lo + 1) - 1) with (mask (hi - lo + 1)).
-  rewrite mask_ones, Z.land_ones by lia. unfold py_shr. rewrite shiftr_div by lia. reflexivity.
+  change (Wire_put wr ?v) with (trunc wr v). f_equal. unfold py_shl, py_shr.
+  match goal with |- Z.land _ (Z.shiftl 1 ?n - 1) = _ => try (replace n with (hi - lo + 1) by lia) end.
+  change (Z.shiftl 1 (hi - lo + 1) - 1) with (mask (hi - lo + 1)).
+  rewrite mask_ones, Z.land_ones, shiftr_div by lia. reflexivity.
 Qed.
 
 Lemma seqZ_in a b i : In i (seqZ a b) -> a <= i < b.
